@@ -8,6 +8,7 @@
 #include "../fw/hx.h"
 #include "../fw/simbus.h"
 #include "../fw/cfg.h"
+#include "../fw/cfgmodel.h"
 #include "include/bidib.h"
 #include <stdio.h>
 #include <stdlib.h>
@@ -254,6 +255,83 @@ static void packets_child(const void *job, size_t n) {
 	res_printf("O %x %x\nC packet_cases %ld\n", from, count, cases);
 	res_finish();
 }
+/* ---------------------------------------------------------------- c19.relogin: "to that board" means its CURRENT address
+ * Standard configuration with SecAck also enabled on the leaf board lc1 (feature 0x03 = 1).  E2 over: the four report kinds from
+ * lc1, lost(lc1), new(lc1 at its old / another local address), a new-node notice without a lost one (board moved), a system reset,
+ * a report from the interface.  After every event each report of a connected SecAck board has exactly one mirror, addressed to the
+ * address the board has NOW, with the reported payload; nothing else is mirrored. */
+enum { RL_REP0, RL_LOST = 4, RL_NEW2, RL_NEW7, RL_MOVE7, RL_MOVE2, RL_RESET, RL_MASTER, RL_N };
+static const char *rl_evname(int ev) { static const char *n[RL_N] = {"occ from lc1", "free from lc1", "multiple8 from lc1", "position from lc1", "lost(lc1)", "new(lc1 local 2)", "new(lc1 local 7)", "new-without-lost(lc1 local 7)", "new-without-lost(lc1 local 2)", "bidib_send_sys_reset", "occ from master"}; return n[ev]; }
+static struct { int lc, present, logpos, counter; } RL; static cm_model_t RLM;
+static void rl_expect(int node, uint8_t mtype, const uint8_t *d, int dl, const char *what) {
+	int found = 0;
+	for (; RL.logpos < SB.nlog; RL.logpos++) { if (!is_mirror(SB.log[RL.logpos].type)) continue;
+		if (found || node < 0) { res_violation("mirror-duplicated-or-spurious: more mirror messages than reports", "%s: type %02x to %02x.%02x.%02x", what, SB.log[RL.logpos].type, SB.log[RL.logpos].addr[0], SB.log[RL.logpos].addr[1], SB.log[RL.logpos].addr[2]); continue; }
+		found = 1;
+		if (memcmp(SB.log[RL.logpos].addr, SB.n[node].addr, 4)) res_violation("mirror-misaddressed: the mirror did not go to the current address of the reporting board", "%s: mirror to %02x.%02x.%02x, board is at %02x.%02x.%02x", what, SB.log[RL.logpos].addr[0], SB.log[RL.logpos].addr[1], SB.log[RL.logpos].addr[2], SB.n[node].addr[0], SB.n[node].addr[1], SB.n[node].addr[2]);
+		else if (SB.log[RL.logpos].type != mtype || SB.log[RL.logpos].dlen != dl || memcmp(SB.log[RL.logpos].data, d, (size_t) dl)) { char cls[160]; snprintf(cls, sizeof cls, "mirror-payload-differs type=%02x: the mirror does not carry the reported detector number / payload", mtype); res_violation(cls, "%s: mirror %02x %s", what, SB.log[RL.logpos].type, hx_hex(SB.log[RL.logpos].data, (size_t) SB.log[RL.logpos].dlen)); }
+	}
+	if (node >= 0 && !found) { char cls[160]; snprintf(cls, sizeof cls, "mirror-missing type=%02x: a report of a SecAck board was not answered with a mirror message", mtype); res_violation(cls, "%s%s", what, vx_send_buffer_index() ? " (something waits unflushed in the send buffer)" : ""); }
+}
+static void rl_report(int node, int r, const char *what) {
+	uint8_t d[8]; int dl = 0; uint8_t type = 0, mt = 0; RL.counter++;
+	switch (r) {
+	case 0: d[0] = 1; dl = 1; type = MSG_BM_OCC; mt = MSG_BM_MIRROR_OCC; break;
+	case 1: d[0] = 1; dl = 1; type = MSG_BM_FREE; mt = MSG_BM_MIRROR_FREE; break;
+	case 2: d[0] = 0; d[1] = 8; d[2] = (uint8_t) (0x01 | (RL.counter << 1)); dl = 3; type = MSG_BM_MULTIPLE; mt = MSG_BM_MIRROR_MULTIPLE; break;
+	default: d[0] = 0x23; d[1] = 0x01; d[2] = 0; d[3] = 0x34; d[4] = 0x12; dl = 5; type = MSG_BM_POSITION; mt = MSG_BM_MIRROR_POSITION; break;
+	}
+	sb_send(node, type, d, dl); vs_point(); hx_quiesce();
+	uint8_t *m; while ((m = bidib_read_message())) free(m);
+	rl_expect(node, mt, d, dl, what);
+}
+static int rl_apply(int ev) {
+	const char *what = rl_evname(ev); uint8_t d[9];
+	if (ev < RL_LOST) { if (!RL.present) return 0; rl_report(RL.lc, ev, what); return 1; }
+	if (ev == RL_MASTER) { rl_report(0, 0, what); return 1; }
+	if (ev == RL_LOST) { if (!RL.present) return 0; SB.n[RL.lc].present = 0; RL.present = 0; d[0] = ++SB.n[0].tab_version; d[1] = SB.n[RL.lc].local; memcpy(d + 2, RLM.b[2].uid, 7); sb_send(0, MSG_NODE_LOST, d, 9); }
+	else if (ev == RL_RESET) {
+		/* the reset makes the library ask every detector board for its occupancy (MSG_BM_GET_RANGE); the simulated boards answer
+		 * with one MSG_BM_MULTIPLE each, which is a report like any other: one mirror per request to a SecAck board, none else */
+		bidib_send_sys_reset(0); hx_quiesce(); uint8_t *m; while ((m = bidib_read_message())) free(m);
+		for (int nd2 = 0; nd2 < SB.nn; nd2++) { int req = 0, mir = 0; int sec = nd2 == 0 || (RL.present && nd2 == RL.lc);
+			for (int i = RL.logpos; i < SB.nlog; i++) if (!memcmp(SB.log[i].addr, SB.n[nd2].addr, 4) && SB.n[nd2].present) { if (SB.log[i].type == MSG_BM_GET_RANGE) req++; if (is_mirror(SB.log[i].type)) { mir++; if (SB.log[i].type != MSG_BM_MIRROR_MULTIPLE) mir += 100; } }
+			if (mir != (sec ? req : 0)) res_violation("mirror-count-after-reset: the occupancy answers after a system reset are not mirrored exactly once to SecAck boards only", "%s: node %02x.%02x.%02x: %d range requests, %d mirrors, SecAck %d", what, SB.n[nd2].addr[0], SB.n[nd2].addr[1], SB.n[nd2].addr[2], req, mir, sec); }
+		RL.logpos = SB.nlog; return 1;
+	}
+	else {
+		uint8_t local = (ev == RL_NEW2 || ev == RL_MOVE2) ? 2 : 7; int move = ev == RL_MOVE7 || ev == RL_MOVE2;
+		if (move != RL.present) return 0;
+		if (move) { if (SB.n[RL.lc].local == local) return 0; SB.n[RL.lc].present = 0; }
+		if (SB.nn >= SB_MAXNODES - 1) return 0;
+		RL.lc = sb_add_node(0, local, RLM.b[2].uid); RL.present = 1;
+		d[0] = ++SB.n[0].tab_version; d[1] = local; memcpy(d + 2, RLM.b[2].uid, 7); sb_send(0, MSG_NODE_NEW, d, 9);
+	}
+	vs_point(); hx_quiesce(); uint8_t *m; while ((m = bidib_read_message())) free(m);
+	rl_expect(-1, 0, NULL, 0, what);
+	return 1;
+}
+static void relogin_child(const void *job, size_t n) {
+	vs_dev_t devs[VS_MAXDEV]; int nd; size_t pl; const uint8_t *p = job_parse(job, n, devs, &nd, &pl);
+	int len = p[1]; const uint8_t *ev = p + 2;
+	hx_child_begin(NULL, 0, 0, NULL, 0, 0);
+	cm_std(&RLM); RLM.b[2].nfeatures = 1; RLM.b[2].features[0] = (cm_feature_t) {0x03, 0x01}; cm_install(&RLM);
+	if (hx_start_normal(0)) res_infra("normal start failed");
+	hx_quiesce();
+	uint8_t *m; while ((m = bidib_read_message())) free(m); while ((m = bidib_read_error_message())) free(m);
+	memset(&RL, 0, sizeof RL); RL.lc = RLM.b[2].sbnode; RL.present = 1; vs_sleep_us(2500000); hx_quiesce(); RL.logpos = SB.nlog;
+	for (int i = 0; i < len; i++) {
+		if (!rl_apply(ev[i])) { if (i == len - 1) res_printf("N 1\n"); else res_infra("inapplicable event inside a history"); res_finish(); }
+		if (res_nviol() && i < len - 1) res_infra("violation before the last event");
+		vs_sleep_us(2500000); hx_quiesce();
+	}
+	hx_emit_ledger_violations("C19");
+	char dump[300]; t_bidib_node_address_query aq = bidib_get_nodeaddr("lc1");
+	size_t o = (size_t) snprintf(dump, sizeof dump, "p%d l%d c%d a%02x%02x%02x v%d", RL.present, RL.present ? SB.n[RL.lc].local : 0, bidib_get_board_connected("lc1"), aq.address.top, aq.address.sub, aq.address.subsub, SB.n[0].tab_version);
+	hx_hash_t h; hx_hash_init(&h); hx_hash_add(&h, dump, o);
+	res_printf("S %llx %llx\n", (unsigned long long) h.a, (unsigned long long) h.b);
+	res_finish();
+}
 /* ---------------------------------------------------------------- c19.startup: the flag comes from the CONFIGURATION
  * Start-up against nodes that answer the feature handshake unusually — per node (master 0x03=0x14, oc1 0x03=0): as requested,
  * the SecAck feature refused / granted differently (value flipped between 0 and non-zero), every feature answered differently, the
@@ -294,7 +372,7 @@ static size_t packets_gen(long idx, uint8_t *payload, char *human, size_t hn) {
 	int from = (int) idx * 57, count = 57; if (from + count > 399) count = 399 - from;
 	memcpy(payload, &from, 4); memcpy(payload + 4, &count, 4); snprintf(human, hn, "multi-message packets %d..%d", from, from + count - 1); return 8;
 }
-void c19_register(void) { harness_register("c19.packets", packets_child); harness_register("c19.hist", hist_child); harness_register("c19.sweep", sweep_child); harness_register("c19.sched", sched_child); harness_register("c19.startup", startup_child); }
+void c19_register(void) { harness_register("c19.packets", packets_child); harness_register("c19.hist", hist_child); harness_register("c19.sweep", sweep_child); harness_register("c19.sched", sched_child); harness_register("c19.startup", startup_child); harness_register("c19.relogin", relogin_child); }
 int c19_run(const char *tier) {
 	int thorough = !strcmp(tier, "thorough");
 	const char *variant = getenv("VERIF_VARIANT"); int asan = variant && !strcmp(variant, "asan");
@@ -305,6 +383,7 @@ int c19_run(const char *tier) {
 		e1_explore(&es); for (int k = 0; k < 8; k++) sch += es.schedules_by_cost[k]; sch_states += es.distinct_outcomes; sch_cp += es.choice_points; if (!es.exhaustive) sch_ex = 0;
 		rep_note("%s (receiver || queue reader || sender): bound=%d completed=%d schedules by cost=[%ld,%ld,%ld,%ld] distinct outcomes=%ld contended=%ld", label, es.bound, es.completed_bound, es.schedules_by_cost[0], es.schedules_by_cost[1], es.schedules_by_cost[2], es.schedules_by_cost[3], es.distinct_outcomes, es.contended_execs); }
 	if (asan) { rep_count("states", sch_states); rep_count("transitions", sch_cp); rep_count("executions", sch); rep_flag("exhaustive", sch_ex); return 0; }   /* the ASan build runs the schedule harness only */
+	uint8_t param0[1] = {0};
 	ex_spec_t sw = { .harness = "c19.sweep", .ncases = 3, .gen = sweep_gen, .label = "c19.sweep" };
 	ex_map(&sw);
 	ex_spec_t pkts = { .harness = "c19.packets", .ncases = 7, .gen = packets_gen, .label = "c19.packets" };
@@ -312,11 +391,14 @@ int c19_run(const char *tier) {
 	ex_spec_t su = { .harness = "c19.startup", .ncases = 25, .gen = startup_gen, .label = "c19.startup" };
 	ex_map(&su); sw.done += su.done; if (!su.exhaustive) sw.exhaustive = 0;
 	rep_note("c19.startup: %ld feature-handshake variants (5 answer modes per SecAck-configured node), %ld reports checked afterwards", su.done, rep_get("startup_variant_reports"));
+	e2_spec_t rl = { .harness = "c19.relogin", .param = param0, .nparam = 1, .nevents = RL_N, .max_depth = thorough ? 6 : 4, .label = "c19.relogin", .evname = rl_evname };
+	e2_explore(&rl); sw.done += rl.execs; if (!rl.exhaustive) sw.exhaustive = 0;
+	rep_note("c19.relogin: SecAck leaf board lost / re-logged in at another address / moved / system reset: %d events, depth %d, %ld states, %ld transitions", RL_N, rl.depth_completed, rl.states, rl.transitions);
 	rep_note("c19.packets: %ld multi-message packets (every sequence of 1..3 messages over 7 kinds in one packet)", rep_get("packet_cases"));
 	uint8_t param[1] = {0}; const char *d = getenv("VERIF_DEPTH");
 	e2_spec_t s = { .harness = "c19.hist", .param = param, .nparam = 1, .nevents = EV_N, .max_depth = d ? atoi(d) : (thorough ? 7 : 5), .label = "c19.hist", .evname = evname };
 	e2_explore(&s);
-	rep_count("states", s.states + 3 + sch_states); rep_count("transitions", s.transitions + rep_get("sweep_cases") + sch_cp); rep_count("executions", s.execs + sw.done + sch);
+	rep_count("states", s.states + 3 + sch_states + rl.states); rep_count("transitions", s.transitions + rep_get("sweep_cases") + sch_cp + rl.transitions); rep_count("executions", s.execs + sw.done + sch);
 	rep_flag("exhaustive", s.exhaustive && sw.exhaustive && sch_ex);
 	char sb[200]; size_t o = 0; for (int i = 0; i <= s.depth_completed + 1 && i < 16; i++) o += (size_t) snprintf(sb + o, sizeof sb - o, "%ld ", s.states_by_depth[i]);
 	rep_note("c19.hist: %d events, depth completed=%d, new states by depth: %s; payload sweep cases=%ld; observations of mirrors held by flow control=%ld", EV_N, s.depth_completed, sb, rep_get("sweep_cases"), rep_get("mirrors_held_then_released_cases"));
